@@ -72,6 +72,21 @@ fn api_wrappers(c: &Case, reference: &Result<Result<DataMatrix, DataEncodingErro
             }
         }
     }
+    if c.eci.is_none() {
+        // the builder with only the non-default options set: its defaults are all modes, the default
+        // symbol list (the 30 sizes of ISO/IEC 16022), macros on, no FNC1 start
+        let c2 = c.clone();
+        let l = list();
+        let r = guarded(move || {
+            let mut b = DataMatrixBuilder::new();
+            if c2.mask != default_mask() { b = b.with_symbol_list(l); }
+            if c2.modes != 63 { b = b.with_encodation_types(modes_from_bits(c2.modes)); }
+            if !c2.macros { b = b.with_macros(false); }
+            if c2.fnc1 { b = b.with_fnc1_start(true); }
+            b.encode(&c2.data)
+        });
+        cmp("builder_defaults", sig_dm(&r), &want);
+    }
     if !c.fnc1 {
         let c2 = c.clone();
         let l = list();
